@@ -501,6 +501,35 @@ theorem end_only (c : Cfg) (m : MarkerConv) (hag : Agree c m) (pro em epi : List
   rw [h3, List.take_left']
   rfl
 
+/-- **noise lines are transparent for the selection** (∀ positions, ∀ noise): inserting lines without a
+    mnemonic that are not marker comments (comments, labels, directives; blank lines never reach the parsed
+    file, see `blank_line_transparent`) into a body of inert lines leaves the selection exact, and the
+    instructions selected are the same as without the insertion. -/
+theorem noise_transparent_select (c : Cfg) (m : MarkerConv) (hag : Agree c m)
+    (pro sm b1 noise b2 em epi : List Line)
+    (hpro : Quiet m pro (sm ++ ((b1 ++ (noise ++ b2)) ++ (em ++ epi)))) (hsm : StartMarker m sm)
+    (hb1 : ∀ l ∈ b1, Inert m l) (hb2 : ∀ l ∈ b2, Inert m l)
+    (hnoise : ∀ l ∈ noise, l.mnem = none ∧ l.comment ≠ some commentBegin ∧ l.comment ≠ some commentEnd)
+    (hem : EndMarker m em) :
+    reduceWith c (pro ++ (sm ++ ((b1 ++ (noise ++ b2)) ++ (em ++ epi)))) = some (b1 ++ (noise ++ b2)) ∧
+    (b1 ++ (noise ++ b2)).filter (fun l => l.mnem.isSome) = (b1 ++ b2).filter (fun l => l.mnem.isSome) := by
+  constructor
+  · apply marked_exact c m hag pro sm _ em epi hpro hsm _ hem
+    apply inert_quiet
+    intro l hl
+    simp only [List.mem_append] at hl
+    rcases hl with h | h | h
+    · exact hb1 l h
+    · obtain ⟨h1, h2, h3⟩ := hnoise l h
+      unfold Inert; rw [h1]; exact ⟨h2, h3⟩
+    · exact hb2 l h
+  · simp only [List.filter_append]
+    have : noise.filter (fun l => l.mnem.isSome) = [] := by
+      rw [List.filter_eq_nil_iff]
+      intro l hl
+      simp [(hnoise l hl).1]
+    rw [this]; simp
+
 /-! ### `--lines` -/
 
 /-- the character map of `line_str.replace(":", "-")` -/
